@@ -35,6 +35,19 @@ def write_td_in_child(td, key, value):
     return [bool(td.is_memmap())]
 
 
+def add_entry_in_child(path, key, shape, dtype_name, value, how):
+    """run in a worker process: map the directory, create an entry with make_memmap* (possibly inside a nested node) and fill it"""
+    from tensordict import TensorDict
+    td = TensorDict.load_memmap(path).memmap_()
+    dt = getattr(torch, dtype_name)
+    if how == "make_memmap":
+        new = td.make_memmap(tuple(key), shape=torch.Size(shape), dtype=dt)
+        new.fill_(value)
+    else:
+        td.make_memmap_from_tensor(tuple(key), torch.full(shape, value, dtype=dt))
+    return True
+
+
 def gen(rng, kind, b):
     from tensordict import LazyStackedTensorDict, NonTensorData, NonTensorStack, TensorDict
     import c11_trips
@@ -128,6 +141,50 @@ def run_ext(run):
                                 else:
                                     run.oracle_fail(f"reader({method})", case, f"a {method}ed reader sees {cd}", f"{kind}:reader:{method}")
                         shutil.rmtree(d, ignore_errors=True)
+            # ---- a writer task that fails makes the save fail, whatever the number of threads (same outcome as num_threads=0)
+            for it in range(6 if quick else 24):
+                b = rng.choice([[2], [3]])
+                variant = ["leaf-file-is-a-directory", "nontensor-directory-is-a-file", "nested-leaf-file-is-a-directory"][it % 3]
+                api = ["memmap", "memmap_", "save", "memmap(return_early)"][it % 4]
+
+                def attempt(nt, tag):
+                    d = root / f"f{it}_{tag}"
+                    d.mkdir(parents=True)
+                    td = TensorDict({"a": mk_tensor(None, torch.float32, b + [2], it), "x": mk_tensor(None, torch.int16, b, 3),
+                                     "n": {"y": mk_tensor(None, torch.int64, b, it + 1)}, "s": NonTensorData("payload", batch_size=b)}, b)
+                    if variant == "leaf-file-is-a-directory":
+                        (d / "x.memmap").mkdir()
+                    elif variant == "nontensor-directory-is-a-file":
+                        (d / "s").write_bytes(b"stale")
+                    else:
+                        (d / "n").mkdir()
+                        (d / "n" / "y.memmap").mkdir()
+                    try:
+                        with time_limit(120):
+                            if api == "memmap(return_early)":
+                                r = td.memmap(d, num_threads=nt, return_early=True) if nt > 1 else td.memmap(d, num_threads=nt)
+                                r = r.result() if hasattr(r, "result") else r
+                            else:
+                                getattr(td, api)(d, num_threads=nt)
+                        got = canon(TensorDict.load_memmap(d), **OPTS)
+                        return "returned" if first_diff(canon(td, **OPTS), got) is None else "returned, but the directory does not hold the tensordict"
+                    except TimeoutError as e:
+                        raise Infra(f"memmap timed out: {e}")
+                    except Exception as e:  # noqa: BLE001
+                        return "raised"
+                    finally:
+                        shutil.rmtree(d, ignore_errors=True)
+
+                from tensordict import NonTensorData
+                ref_outcome = attempt(0, "seq")
+                for nt in (2, rng.choice([4, 8])):
+                    run.case(("writer-failure", it, variant, api, nt))
+                    out = attempt(nt, f"t{nt}")
+                    if out == ref_outcome and not out.startswith("returned,"):
+                        run.oracle_ok("writer_failure_is_loud")
+                    else:
+                        run.oracle_fail("writer_failure_is_loud", {"variant": variant, "api": api, "num_threads": nt, "batch": b},
+                                        f"{api}(num_threads={nt}) into a directory where {variant}: {out}; num_threads=0: {ref_outcome}", f"writer-failure:{variant}")
             # ---- write through across processes, load_memmap_, memmap_refresh_, copy_existing
             for it in range(10 if quick else 60):
                 b = rng.choice([[2], [3]])
@@ -225,6 +282,100 @@ def run_ext(run):
                     run.oracle_fail("copy_existing", case, res, "copy_existing")
                 shutil.rmtree(d, ignore_errors=True)
                 shutil.rmtree(d2, ignore_errors=True)
+            # ---- entries that are already memory-mapped elsewhere AND are views of their file (a row, a slice, a strided / offset
+            #      part of a memory-mapped tensordict): copy_existing=True saves the view's own content, copy_existing=False refuses
+            for it in range(8 if quick else 48):
+                n = rng.choice([3, 4, 5])
+                src_td = TensorDict({"obs": mk_tensor(None, rng.choice([torch.float32, torch.int16, torch.uint8, torch.float64]), [n, 4], it),
+                                     "nested": {"r": mk_tensor(None, torch.int64, [n, 1], it + 1), "m": {"z": mk_tensor(None, torch.bfloat16, [n, 2, 2], it + 2)}}}, [n])
+                d = root / f"v{it}_src"
+                storage = src_td.memmap_(d) if it % 2 else src_td.memmap(d)
+                before = canon(storage, **OPTS)
+                index_name, index = [("row 0", 0), ("row 1", 1), ("last row", -1), ("rows 1:", slice(1, None)), ("rows :-1", slice(None, -1)),
+                                     ("rows ::2", slice(None, None, 2)), ("rows [2, 0]", torch.tensor([2, 0])), ("rows 1:2", slice(1, 2))][it % 8]
+                view = storage[index]
+                expected = canon(src_td[index].clone(), **OPTS)
+                for nt in (0, rng.choice([2, 4])):
+                    for api in ("memmap", "save"):
+                        case = {"index": index_name, "api": api, "num_threads": nt, "rows": n}
+                        run.case(("view-of-file", it, index_name, api, nt))
+                        dest = root / f"v{it}_{api}_{nt}"
+                        try:
+                            with time_limit(120):
+                                try:
+                                    getattr(view, api)(dest / "no", copy_existing=False, num_threads=nt)
+                                    refused = canon(TensorDict.load_memmap(dest / "no"), **OPTS) == expected   # accepted is fine too if faithful
+                                except RuntimeError:
+                                    refused = True
+                                out = getattr(view, api)(dest / "yes", copy_existing=True, num_threads=nt)
+                                got = first_diff(expected, canon(TensorDict.load_memmap(dest / "yes"), **OPTS))
+                                if got is None and out is not None:
+                                    got = first_diff(expected, canon(out, **OPTS))
+                                untouched = first_diff(before, canon(storage, **OPTS))
+                            res = None if (refused and got is None and untouched is None) else \
+                                f"copy_existing=False refused or faithful: {refused}; copy_existing=True round trip: {got}; source after the copy: {untouched}"
+                        except TimeoutError as e:
+                            raise Infra(f"memmap timed out: {e}")
+                        except Exception as e:  # noqa: BLE001
+                            res = f"raised {type(e).__name__}: {str(e)[:150]}"
+                        if res is None:
+                            run.oracle_ok("copy_existing(view of a file)")
+                        else:
+                            run.oracle_fail("copy_existing(view of a file)", case, f"{api} of {index_name} of a memory-mapped tensordict: {res}", "copy_existing:view")
+                        shutil.rmtree(dest, ignore_errors=True)
+                shutil.rmtree(d, ignore_errors=True)
+            # ---- two mappings of one directory: entries created with make_memmap* through one mapping (this process, a forked or a
+            #      spawned one), at the root or inside a nested node the reader has already mapped; after memmap_refresh_() /
+            #      load_memmap_() the reader equals a fresh load, and so does a later load
+            for it in range(9 if quick else 60):
+                b = rng.choice([[2], [3], [4]])
+                base = TensorDict({"obs": mk_tensor(None, torch.float32, b + [2], it), "stats": {"mean": mk_tensor(None, torch.float32, b, it + 1),
+                                                                                                 "deep": {"k": mk_tensor(None, torch.int16, b, it + 2)}}}, b)
+                d = root / f"m{it}"
+                writer = base.memmap_(d)
+                reader = TensorDict.load_memmap(d).memmap_()
+                where = [("count",), ("stats", "count"), ("stats", "deep", "count"), ("stats", "fresh-node", "count")][it % 4]
+                who = ["same process", "fork", "spawn"][it % 3] if not quick or it % 3 != 2 else "fork"
+                if who not in ("same process",) and who not in pools:
+                    who = "fork"
+                how = ["make_memmap", "make_memmap_from_tensor"][(it // 2) % 2]
+                via = ["memmap_refresh_", "load_memmap_"][(it // 3) % 2]
+                dt = rng.choice(["int32", "float64", "uint8"])
+                shape = b + rng.choice([[], [2]])
+                val = it + 3
+                case = {"key": list(where), "writer": who, "how": how, "refresh": via, "dtype": dt, "shape": shape}
+                run.case(("two-mappings", it, str(case)))
+                try:
+                    with time_limit(180):
+                        if who == "same process":
+                            if how == "make_memmap":
+                                writer.make_memmap(where, shape=torch.Size(shape), dtype=getattr(torch, dt)).fill_(val)
+                            else:
+                                writer.make_memmap_from_tensor(where, torch.full(shape, val, dtype=getattr(torch, dt)))
+                        else:
+                            pools[who].apply(add_entry_in_child, (str(d), list(where), shape, dt, val, how))
+                        want = base.clone()
+                        want[where] = torch.full(shape, val, dtype=getattr(torch, dt))
+                        want_c = canon(want, **OPTS)
+                        if via == "memmap_refresh_":
+                            reader.memmap_refresh_()
+                        else:
+                            reader.load_memmap_(d)
+                        r1 = first_diff(want_c, canon(reader, **OPTS))
+                        r2 = first_diff(want_c, canon(TensorDict.load_memmap(d), **OPTS))
+                        # live view: a later write through the writer's side is seen by the refreshed reader without another refresh
+                        TensorDict.load_memmap(d)[where].fill_(val + 1)
+                        r3 = None if bool((reader[where] == val + 1).all()) else "a write through another mapping of the new entry is not seen by the refreshed reader"
+                    res = None if (r1 is None and r2 is None and r3 is None) else f"reader after {via}: {r1}; a later load of the directory: {r2}; {r3 or ''}"
+                except TimeoutError as e:
+                    raise Infra(f"two-mapping history timed out: {e}")
+                except Exception as e:  # noqa: BLE001
+                    res = f"raised {type(e).__name__}: {str(e)[:150]}"
+                if res is None:
+                    run.oracle_ok("refresh_equals_load")
+                else:
+                    run.oracle_fail("refresh_equals_load", case, f"entry {where} created by {how} in {who}, reader refreshed with {via}: {res}", f"refresh:{'nested' if len(where) > 1 else 'root'}")
+                shutil.rmtree(d, ignore_errors=True)
             # ---- saving over an earlier save of the same kind with a different structure (the directory holds stale files)
             from tensordict import LazyStackedTensorDict
 
